@@ -3,6 +3,7 @@ package vh
 import (
 	"context"
 	"sort"
+	"sync"
 
 	"github.com/cosi-project/runtime/pkg/resource"
 	"github.com/cosi-project/runtime/pkg/state"
@@ -31,6 +32,15 @@ type OpRec struct {
 // Sequential drivers only.
 var LastUpdFact = "n/a"
 
+// lastUpdMu guards LastUpdFact: Exec is called from several client goroutines in the concurrent drivers.
+var lastUpdMu sync.Mutex
+
+func setUpdFact(s string) {
+	lastUpdMu.Lock()
+	LastUpdFact = s
+	lastUpdMu.Unlock()
+}
+
 func updFact(ctx context.Context, st state.CoreState, r resource.Resource) string {
 	cur, err := st.Get(ctx, r.Metadata())
 	if err != nil {
@@ -50,7 +60,7 @@ func Exec(ctx context.Context, st state.CoreState, rq Req, crs *CrMap, variant i
 	var err error
 
 	out = []KV{}
-	LastUpdFact = "n/a"
+	setUpdFact("n/a")
 
 	switch rq.Op {
 	case "create":
@@ -64,7 +74,7 @@ func Exec(ctx context.Context, st state.CoreState, rq Req, crs *CrMap, variant i
 		err = st.Create(ctx, r, state.WithCreateOwner(rq.Owner))
 		if err == nil {
 			out = append(out, KV{rq.K, Project(r, crs)})
-			LastUpdFact = updFact(ctx, st, r)
+			setUpdFact(updFact(ctx, st, r))
 		}
 	case "update":
 		r := NewRes(rq.K, rq.Obj)
@@ -85,7 +95,7 @@ func Exec(ctx context.Context, st state.CoreState, rq Req, crs *CrMap, variant i
 		err = st.Update(ctx, r, opts...)
 		if err == nil {
 			out = append(out, KV{rq.K, Project(r, crs)})
-			LastUpdFact = updFact(ctx, st, r)
+			setUpdFact(updFact(ctx, st, r))
 		}
 	case "destroy":
 		err = st.Destroy(ctx, rq.K.Pointer(), state.WithDestroyOwner(rq.Owner))
